@@ -752,7 +752,7 @@ func gen(r *h.Rand, tier string, emit func([]string)) {
 	}
 	n := 110
 	if tier == "thorough" {
-		n = 2500
+		n = 1500
 	}
 	for i := 0; i < n; i++ {
 		emit(genSchedule(r))
